@@ -235,6 +235,49 @@ def d5_d6(run, tu):
            ok and 'Py_INCREF(origobj)' in incs and 'Py_XINCREF(destructor)' in incs, tu.where(f), str(incs))
 
 
+def d7(run, tu):
+    """"at collection": an object that owns Python references is only collected with a cycle if its tp_traverse shows every one of them to
+    the collector -- under no other condition than the reference being there (and, for the shared owning type, the kind of cdata)"""
+    F = rules.macro_flags(tu, 'CT_')
+    table = [('cdatagcp_traverse', 'cd->destructor', None), ('cdatagcp_traverse', 'cd->origobj', None),
+             ('cdatafrombuf_traverse', 'view->obj', None),
+             ('cdataowninggc_traverse', 'cd->structobj', F['CT_IS_VOID_PTR']),
+             ('cdataowninggc_traverse', 'closure->user_data', F['CT_FUNCTIONPTR'])]
+    for fn, field, mask in table:
+        f = tu.func(fn)
+        g = cfg_of(tu, fn)
+        # locals that are single-assigned from the field stand for it
+        alias = {field.replace(' ', '')}
+        for d_ in cx.walk(f):
+            if d_.get('kind') == 'VarDecl' and d_.get('init') and cx.kids(d_):
+                if cx.render(cx.strip(cx.kids(d_)[-1], casts=True)).replace(' ', '') in alias or cx.render(cx.kids(d_)[-1]).replace(' ', '') in alias:
+                    alias.add(d_['name'])
+        visits = []
+        for n in g.nodes:
+            if n.ast is None:
+                continue
+            for c in cx.calls_in(n.ast):
+                if cx.callee_text(c) == 'visit' and cx.call_args(c):
+                    a0 = cx.call_args(c)[0]
+                    if cx.render(cx.strip(a0, casts=True)).replace(' ', '') in alias or cx.render(a0).replace(' ', '') in alias:
+                        visits.append(n)
+        ok, why = bool(visits), 'the reference is never passed to visit(): a cycle through it is never collected and the destructor never runs'
+        for n in visits:
+            extra = []
+            for t in g.fact_texts(n.id):
+                lab, cond = t.split(':', 1)
+                c0 = cond.replace(' ', '')
+                about_self = any(c0 in (a, a + '!=NULL', a + '!=0', a + '!=((void*)0)', '(PyObject*)(' + a + ')') for a in alias) and lab == 'T'
+                about_kind = mask is not None and lab == 'T' and c0 == 'cd->c_type->ct_flags&%d' % mask
+                other_kind = lab == 'F' and c0.startswith('cd->c_type->ct_flags&')
+                prior_visit = lab == 'F' and c0 in ('vret', 'vret!=0', '0')     # `0` is the do { } while (0) of an earlier Py_VISIT
+                if not (about_self or about_kind or other_kind or prior_visit):
+                    extra.append(t)
+            if extra:
+                ok, why = False, 'visit(%s) is only reached when also %s: references held through other kinds of objects stay invisible to the collector' % (field, sorted(extra))
+        run.ob('D7/collector-sees-every-owned-reference', fn, 'Py_VISIT(%s)' % field, ok, tu.where(f), why)
+
+
 def check(run):
     run.explanation = (
         'Typestate rules on the CFGs of the ownership code: finalise-once (every gcp_finalize call has its arguments loaded '
@@ -248,8 +291,10 @@ def check(run):
     d3(run, tu)
     d4(run, tu)
     d5_d6(run, tu)
+    d7(run, tu)
     run.min_instances('D1', 9)
     run.min_instances('D2', 7)
     run.min_instances('D3', 3)
     run.min_instances('D4', 9)
+    run.min_instances('D7', 5)
     run.assume('PyBuffer_Release is idempotent (CPython clears view->obj); GC timing is not modelled')
